@@ -126,7 +126,7 @@ var (
 	FaultsStat     = []syscall.Errno{syscall.EIO}
 	FaultsGetdents = []syscall.Errno{syscall.EIO}
 	FaultsMkdir    = []syscall.Errno{syscall.ENOSPC, syscall.EIO}
-	FaultsRename   = []syscall.Errno{syscall.ENOSPC, syscall.EIO}
+	FaultsRename   = []syscall.Errno{syscall.ENOSPC, syscall.EIO, syscall.EBUSY, syscall.EACCES, syscall.EROFS}
 	FaultsUnlink   = []syscall.Errno{syscall.EIO}
 )
 
